@@ -10,7 +10,7 @@ SALS_PD = [12, 7, 4, 0, -4]
 # ... and, since a failure makes the inverse-mix model skip the LOWEST rule, no two rules tie at all: every name draws from a pool of
 # its own (a thorough run found pb and pc tied at the bottom next to a failing pd: which of them was skipped was the map order's
 # choice).  Ties between rules are C08's subject; a rule re-submitted with an unchanged salience still occurs (small pools)
-SALS_BY_NAME = {"pa": [9, 11, 1], "pb": [6, 8, -2], "pc": [3, 10, -3], "pd": SALS_PD}     # pairwise disjoint, and containing the initial 9 / 6 / 3
+SALS_BY_NAME = {"pa": [9, 11, 1, 2 ** 63 - 1], "pb": [6, 8, -2], "pc": [3, 10, -3, -2 ** 63], "pd": SALS_PD}     # pairwise disjoint, and containing the initial 9 / 6 / 3
 
 
 class Gen:
@@ -109,6 +109,16 @@ def make_scenarios(rng, tier):
     sid += 1
     scs.append(scenario(sid, 1, 2, [{"op": "remove", "names": ["pa", "pb", "pc"]}, {"op": "incr", "rules": g.rules(["pb"])}], g))
     sid += 1
+    # an emptied (cleared, or every rule removed) pool refilled by ONE incremental update of several rules, then incremental
+    # replacements of a rule that is not the first — with its salience unchanged, and with a new salience
+    for empty in ([{"op": "clear"}], [{"op": "remove", "names": list(RN)}]):
+        for second in ("same", "moved"):
+            refill = g.rules(["pa", "pb", "pc"])
+            sal_b = next(r["sal"] for r in refill if r["name"] == "pb")
+            repl = g.rules(["pb"])
+            repl[0]["sal"] = sal_b if second == "same" else next(x for x in SALS_BY_NAME["pb"] if x != sal_b)
+            scs.append(scenario(sid, 2, 3, empty + [{"op": "incr", "rules": refill}, {"op": "incr", "rules": repl}, {"op": "incr", "rules": g.rules(["pc"])}], g))
+            sid += 1
     n_rand, maxlen = (12, 8) if tier == "quick" else (300, 12)
     for _ in range(n_rand):
         mn, mx = rng.choice([(2, 3), (1, 4), (1, 2)])
